@@ -12,7 +12,13 @@ file-name-by-file-name, reversed and shuffled insertion orders; nesting depth; f
 measurements in one file), UNUSUAL UNICODE components (not fixed under NFC / NFD / NFKC / NFKD, case pairs,
 line separators, BOM ...) together with their twin spellings in the same folder, STATE PROBES (the same list
 built a second time in the same process after the first codebase was modified; the same entry objects added to
-two codebases) and CONFIGURATION variants (Configuration.repository / exclude / verbose set)."""
+two codebases) and CONFIGURATION variants (Configuration.repository / exclude / verbose set).
+
+Round 5: the report DOCUMENTS are an observation point of the oracle (an unparsable or differing document is a failing
+input); AWKWARD NAMES (harness/gen/names.py: backslash, quote, tab, glob characters; NFC / NFD twins; novel source
+literals); HISTORIES add / query / add on one Codebase (read-only queries while the code base is being filled);
+ladder rungs from the integer literals that are new in the source under check (harness/gen/srcdict.py); ladders over
+the number of languages and of sub-folders of one folder."""
 import itertools
 import os
 import sys
@@ -22,6 +28,9 @@ sys.path.insert(0, os.path.join(os.path.dirname(os.path.dirname(os.path.dirname(
 import common
 import logic
 import h4_support as h4
+import h4_round5 as r5
+from gen import names as gnames
+from gen import srcdict
 
 ID = "C07"
 TRUSTED = [
@@ -116,7 +125,13 @@ def snap_json(cb):
     from codelimit.common.report.ReportWriter import ReportWriter
     out = []
     for pretty in (True, False):
-        doc = json.loads(ReportWriter(Report(cb), pretty).to_json())["codebase"]
+        text = ReportWriter(Report(cb), pretty).to_json()
+        try:
+            doc = json.loads(text)["codebase"]
+        except ValueError as e:
+            # an observation, not a crash of the harness: the failing input is reported with it
+            out.append({"invalid": "the %s report document is not valid JSON (%s)" % ("pretty" if pretty else "compact", e)})
+            continue
         out.append({
             "totals": [(k, t["files"], t["lines_of_code"], t["functions"], t["hard_to_maintain"], t["unmaintainable"]) for k, t in doc["totals"].items()],
             "tree": [(k, [(1 if n.endswith("/") else 0, n) for n in f["entries"]], f["profile"]) for k, f in doc["tree"].items()],
@@ -140,7 +155,15 @@ def run_real(files, naggr=1):
         return "err 6", None, None, None
     s = snap_object(cb)
     js = snap_json(cb)
-    return fmt_main(s) + fmt_extra(s), fmt_main(js[0]), fmt_main(js[1]), s
+    LAST_JSON[:] = js
+    return fmt_main(s) + fmt_extra(s), fmt_json(js[0]), fmt_json(js[1]), s
+
+
+LAST_JSON = []       # the two JSON views of the last run_real (for the oracle on the document)
+
+
+def fmt_json(j):
+    return "invalid-json: " + j["invalid"] if "invalid" in j else fmt_main(j)
 
 
 # ------------------------------------------------------------------ oracle (independent of codelimit and of the model)
@@ -225,7 +248,7 @@ def oracle(files, s):
     allms = [v for f in files for v in f[3]]
     exp = [len(files), len(allms), sum(f[2] for f in files), sum(1 for v in allms if cat(v) == 2), sum(1 for v in allms if cat(v) == 3),
            sum(allms)] + prof(allms)
-    if list(s["grand"]) != exp:
+    if "grand" in s and list(s["grand"]) != exp:
         bad.append("grand totals %r, required %r" % (s["grand"], exp))
     root = [t for t in s["tree"] if t[0] == "./"]
     if len(root) != 1 or list(root[0][2]) != prof(allms):
@@ -308,7 +331,7 @@ def oracle_fast(files, s):
     allms = [v for f in files for v in f[3]]
     exp = [len(files), len(allms), sum(f[2] for f in files), sum(1 for v in allms if cat(v) == 2), sum(1 for v in allms if cat(v) == 3),
            sum(allms)] + prof(allms)
-    if list(s["grand"]) != exp:
+    if "grand" in s and list(s["grand"]) != exp:
         bad.append("grand totals %r, required %r" % (s["grand"], exp))
     root = [t for t in s["tree"] if t[0] == "./"]
     if len(root) != 1 or list(root[0][2]) != prof(allms):
@@ -333,7 +356,12 @@ def run_real_big(files):
     s = snap_object(cb)
     from codelimit.common.report.Report import Report
     from codelimit.common.report.ReportWriter import ReportWriter
-    doc = json.loads(ReportWriter(Report(cb), False).to_json())["codebase"]
+    try:
+        doc = json.loads(ReportWriter(Report(cb), False).to_json())["codebase"]
+    except ValueError as e:
+        BIG_JSON_NOTE[:] = ["the compact report document is not valid JSON (%s)" % e]
+        return fmt_main(s) + fmt_extra(s), s, False
+    BIG_JSON_NOTE[:] = []
     j = {
         "totals": [(k, t["files"], t["lines_of_code"], t["functions"], t["hard_to_maintain"], t["unmaintainable"]) for k, t in doc["totals"].items()],
         "tree": [(k, [(1 if n.endswith("/") else 0, n) for n in f["entries"]], f["profile"]) for k, f in doc["tree"].items()],
@@ -342,6 +370,9 @@ def run_real_big(files):
     same = (j["totals"] == [tuple(t) for t in s["totals"]] and j["tree"] == [(k, es, pr) for k, es, pr in s["tree"]]
             and j["files"] == [(k, l, c, p, m) for k, l, c, p, m in s["files"]])
     return fmt_main(s) + fmt_extra(s), s, same
+
+
+BIG_JSON_NOTE = []
 
 
 def fails_oracle(files):
@@ -542,6 +573,125 @@ def second_build_probe(files):
         return ["%s raised" % type(e).__name__], None
 
 
+# ------------------------------------------------------------------ round 5: names, histories add / query / add
+
+_EXTENDED = []
+
+
+def extend_names():
+    """awkward file-name characters (backslash followed by every JSON escape letter, quotes, tab, glob / shell characters),
+    NFC / NFD twins and the string literals that are new in the source under check join the component pool"""
+    if not _EXTENDED:
+        _EXTENDED.append(True)
+        for n in r5.path_components(".py"):
+            if n not in NAMES:
+                NAMES.append(n)
+
+
+def gen_awkward(rnd):
+    """path sets in which most components are awkward (the general pool dilutes them)"""
+    pool = r5.path_components(rnd.choice([".py", ".c", ""]))
+    names = rnd.sample(pool, min(len(pool), rnd.randint(2, 6))) + rnd.sample(["src", "a", "x.py"], rnd.randint(0, 2))
+    paths = []
+    for _ in range(rnd.randint(1, 8)):
+        p = "/".join(rnd.choice(names) for _ in range(rnd.choice([1, 1, 2, 2, 3, 4])))
+        if p not in paths and not p.startswith("./"):
+            paths.append(p)
+    return [(p,) + gen_meta(rnd, 3) for p in paths]
+
+
+def gen_schedule(rnd, nfiles):
+    """[[position, query name], ...]: read-only queries asked after `position` files were added (0 = on the empty code base)"""
+    from codelimit.common.Codebase import Codebase
+    qs = r5.query_names(Codebase("/root"))
+    out = []
+    for _ in range(rnd.choice([1, 1, 2, 3, 5])):
+        out.append([rnd.randint(0, nfiles), rnd.choice(qs)])
+    if rnd.random() < 0.5 and nfiles:
+        out.append([nfiles - 1, rnd.choice(qs)])       # just before the last file
+    return sorted(out, key=lambda x: x[0])
+
+
+def history_probe(files, schedule):
+    """HISTORY: the code base is asked read-only questions WHILE it is being filled (a progress line, an interim result);
+    whatever a question hands out is overwritten by the caller; afterwards aggregate and the usual snapshot.
+    -> (reasons, snapshot | None)"""
+    from codelimit.common.Codebase import Codebase
+    from codelimit.common.Location import Location
+    from codelimit.common.Measurement import Measurement
+    from codelimit.common.SourceFileEntry import SourceFileEntry
+    bad = []
+    cb = Codebase("/root")
+    at = {}
+    for pos, q in schedule:
+        at.setdefault(pos, []).append(q)
+    lim = sys.getrecursionlimit()
+    try:
+        sys.setrecursionlimit(400)
+        try:
+            for i in range(len(files) + 1):
+                for q in at.get(i, []):
+                    try:
+                        r5.run_query(cb, q)
+                    except (KeyError, RecursionError):
+                        raise
+                    except Exception as e:   # noqa: BLE001
+                        bad.append("the read-only query %s raised %s: %s" % (q, type(e).__name__, str(e)[:80]))
+                if i < len(files):
+                    p, lang, loc, ms = files[i]
+                    cb.add_file(SourceFileEntry(p, "c0ffee", lang, loc,
+                                                [Measurement("f%d" % k, Location(k + 1, 1), Location(k + 2, 1), v) for k, v in enumerate(ms)]))
+            cb.aggregate()
+        finally:
+            sys.setrecursionlimit(lim)
+    except (KeyError, RecursionError) as e:
+        return ["%s raised" % type(e).__name__], None
+    s = snap_object(cb)
+    js = snap_json(cb)
+    main = fmt_main(s)
+    for name, j in zip(("pretty", "compact"), js):
+        if "invalid" in j:
+            bad.append(j["invalid"])
+        elif fmt_main(j) != main:
+            bad.append("the %s report document's codebase section differs from the object" % name)
+    return bad, s
+
+
+def shrink_failure(f, budget_s=2.5):
+    """smaller file list (and schedule) on which the same kind of check still fails; the failure is rewritten in place"""
+    inp = f["input"]
+    if not isinstance(inp.get("files"), list) or inp.get("naggr", 1) != 1:
+        return
+    fs = [(x[0], x[1], x[2], list(x[3])) for x in inp["files"]]
+    if inp.get("stream") == "query-before-complete":
+        def clip(sched, n):
+            return [[min(pos, n), q] for pos, q in sched]
+
+        def reasons(sub):
+            b, s3 = history_probe(sub, clip(inp["schedule"], len(sub)))
+            return b + (oracle(sub, s3) if s3 is not None else [])
+    elif inp.get("stream") in ("random", "all-orders", "unusual-names", "awkward-names", "malformed", "search"):
+        def reasons(sub):
+            if not in_domain(sub):
+                return []
+            impl, _, _, snap = run_real(sub, 1)
+            return [impl] if snap is None else oracle(sub, snap) + oracle_documents(sub)
+    else:
+        return
+    try:
+        small = h4.ddmin_list(fs, lambda sub: bool(reasons(sub)), budget_s=budget_s)
+        if len(small) < len(fs):
+            bad = reasons(small)
+            if bad:
+                inp["files"] = [list(x) for x in small]
+                if "schedule" in inp:
+                    inp["schedule"] = [[min(pos, len(small)), q] for pos, q in inp["schedule"]]
+                inp["shrunk_from_files"] = len(fs)
+                f["observed"] = bad[:4]
+    except Exception:   # noqa: BLE001 - shrinking is a convenience
+        pass
+
+
 def drive_each(lines, workers=12):
     """one driver process per request, in parallel (the model's folder map is a list: quadratic in the number of folders)"""
     from concurrent.futures import ThreadPoolExecutor
@@ -556,23 +706,43 @@ def ladder_cases(ctx):
     rnd = ctx.rng("ladders")
     out = []
     model_max = ctx.pick(1000, 3162)
-    for n in ctx.pick([100, 316, 1000, 3162], [100, 316, 1000, 3162, 10 ** 4, 31623, 10 ** 5]):
+    for n in r5.rungs(ctx.pick([100, 316, 1000, 3162], [100, 316, 1000, 3162, 10 ** 4, 31623, 10 ** 5]), 2, ctx.pick(2 * 10 ** 4, 10 ** 5)):
         combos = [(nested, order) for nested in (False, True) for order in ORDERS]
         if n > 1000:
             combos = rnd.sample(combos, ctx.pick(3, 4)) if n < 10 ** 5 else [(False, "by-name"), (True, "shuffled")]
+        if n > 3162 and not ctx.thorough:
+            combos = [(False, "by-folder")]          # a rung taken from a literal of the source under check
         # the model's folder map is a list (quadratic): above 316 folders only a sample of the combinations goes to the driver
         with_model = set(range(len(combos))) if n <= 316 else set(rnd.sample(range(len(combos)), min(len(combos), ctx.pick(3, 8))))
         for ci, (nested, order) in enumerate(combos):
             out.append(("ladder-folders", "%d folders %s %s" % (n, "nested" if nested else "flat", order),
                         gen_folder_ladder(rnd, n, nested, order, 2 if n > 316 else rnd.choice([2, 3])), n <= model_max and ci in with_model))
-    for depth in ctx.pick([10, 50, 150], [10, 50, 150, 300, 600]):
+    for depth in r5.rungs(ctx.pick([10, 50, 150], [10, 50, 150, 300, 600]), 2, ctx.pick(300, 600)):
         for order in ("shallow-first", "deep-first", "shuffled"):
             out.append(("ladder-depth", "depth %d %s" % (depth, order), gen_depth_ladder(rnd, depth, order), depth <= 150))
-    for n in ctx.pick([100, 1000, 10 ** 4], [100, 1000, 10 ** 4, 10 ** 5]):
+    for n in r5.rungs(ctx.pick([100, 1000, 10 ** 4], [100, 1000, 10 ** 4, 10 ** 5]), 2, ctx.pick(2 * 10 ** 4, 10 ** 5)):
         out.append(("ladder-files-in-folder", "%d files in one folder" % n, gen_wide_folder(rnd, n), n <= 1000))
-    for n in ctx.pick([100, 1000, 10 ** 4, 10 ** 5], [100, 1000, 10 ** 4, 10 ** 5, 10 ** 6]):
+    for n in r5.rungs(ctx.pick([100, 1000, 10 ** 4, 10 ** 5], [100, 1000, 10 ** 4, 10 ** 5, 10 ** 6]), 2, ctx.pick(10 ** 5, 10 ** 6)):
         out.append(("ladder-measurements", "%d measurements in one file" % n, gen_many_measurements(rnd, n), n <= 10 ** 4))
+    for n in r5.rungs(ctx.pick([100, 1000], [100, 1000, 10 ** 4, 10 ** 5]), 2, ctx.pick(2 * 10 ** 4, 10 ** 5)):
+        out.append(("ladder-languages", "%d languages" % n, gen_many_languages(rnd, n), n <= 316))
+    for n in r5.rungs(ctx.pick([100, 1000], [100, 1000, 10 ** 4]), 2, ctx.pick(10 ** 4, 10 ** 5)):
+        out.append(("ladder-folders-in-folder", "%d folders in one folder" % n, gen_many_subfolders(rnd, n), n <= 316))
     return out
+
+
+def gen_many_languages(rnd, n):
+    """n languages, their files interleaved (a language's files are not adjacent)"""
+    files = [("l%d/f%d.x" % (i % 7, i), "Lang%d" % (i % n), rnd.randint(0, 99), [rnd.choice(BOUNDARY)] * rnd.choice([0, 1, 2])) for i in range(n + n // 2)]
+    rnd.shuffle(files)
+    return files
+
+
+def gen_many_subfolders(rnd, n):
+    """one folder with n direct sub-folders (one file each) and a few files of its own"""
+    files = [("top/s%06d/f.py" % i,) + small_meta(rnd, i) for i in range(n)] + [("top/own%d.py" % i,) + small_meta(rnd, i) for i in range(3)]
+    rnd.shuffle(files)
+    return files
 
 
 def run_ladders(ctx, dis, fails, dist):
@@ -593,7 +763,7 @@ def run_ladders(ctx, dis, fails, dist):
                 dis.append({"stream": stream, "input": small, "model": m[max(0, k - 80):k + 80], "impl": impl[max(0, k - 80):k + 80]})
         bad = ["raises (%s)" % impl] if snap is None else oracle_fast(fs, snap)
         if snap is not None and not same:
-            bad.append("the report's JSON codebase section differs from the object")
+            bad.append(BIG_JSON_NOTE[0] if BIG_JSON_NOTE else "the report's JSON codebase section differs from the object")
         if bad:
             nshrunk = sum(1 for f in fails if "shrunk" in str(f["input"].get("label")))
             shrunk = h4.ddmin_list(fs, fails_oracle, budget_s=ctx.pick(6.0, 30.0)) if nshrunk < 2 else fs
@@ -623,16 +793,28 @@ def compare(stream, files, naggr, model, check_oracle, dis, fails):
         if snap is None:
             fails.append({"input": inp, "observed": impl, "required": "no exception"})
         else:
-            bad = oracle(files, snap)
+            bad = oracle(files, snap) + oracle_documents(files)
             if bad:
                 fails.append({"input": inp, "observed": bad[:4], "required": "C07 (recomputed from the input)"})
     return impl
+
+
+def oracle_documents(files):
+    """the property observed at json.loads(ReportWriter(report).to_json())['codebase'] (both forms) for the last run_real"""
+    bad = []
+    for name, j in zip(("pretty", "compact"), LAST_JSON):
+        if "invalid" in j:
+            bad.append(j["invalid"])
+        else:
+            bad += ["report document (%s): %s" % (name, b) for b in oracle(files, j)[:3]]
+    return bad
 
 
 def correspond(ctx):
     dis, fails = [], []
     nontrivial = set()
     cases = []   # (stream, files, naggr, oracle?)
+    extend_names()
     rnd = ctx.rng("random")
     for _ in range(ctx.pick(2500, 40000)):
         cases.append(("random", gen_files(rnd), 1, True))
@@ -664,6 +846,19 @@ def correspond(ctx):
     for _ in range(ctx.pick(300, 4000)):
         probe_at.add(len(cases))
         cases.append(("second-build", gen_unusual(rnd) if rnd.random() < 0.2 else gen_files(rnd), 1, True))
+    rnd = ctx.rng("awkward-names")
+    for _ in range(ctx.pick(500, 6000)):
+        fs = gen_awkward(rnd)
+        cases.append(("awkward-names", fs, 1, in_domain(fs)))
+    hist_at = {}
+    rnd = ctx.rng("query-before-complete")
+    for _ in range(ctx.pick(500, 6000)):
+        r = rnd.random()
+        fs = gen_unusual(rnd) if r < 0.15 else gen_awkward(rnd) if r < 0.25 else gen_files(rnd)
+        if not in_domain(fs):
+            continue
+        hist_at[len(cases)] = gen_schedule(rnd, len(fs))
+        cases.append(("query-before-complete", fs, 1, True))
     replies = common.run_driver_sharded([request(fs, k) for (_, fs, k, _) in cases])
     samples = []
     dist = {}
@@ -680,6 +875,23 @@ def correspond(ctx):
             if bad:
                 fails.append({"input": {"stream": "second-build", "files": [list(f) for f in fs], "naggr": 1}, "observed": bad[:4],
                               "required": "C07 on every build of the same list in one process"})
+        if ci in hist_at:
+            bad, s2 = history_probe(fs, hist_at[ci])
+            if s2 is not None:
+                bad += oracle(fs, s2)
+                h = fmt_main(s2) + fmt_extra(s2)
+                if h != m:
+                    dis.append({"stream": "query-before-complete", "input": {"stream": "query-before-complete", "files": [list(f) for f in fs], "naggr": 1,
+                                                                              "schedule": hist_at[ci]}, "model": m, "impl": h})
+            for _pos, q in hist_at[ci]:
+                dist.setdefault("queries", {})[q] = dist.setdefault("queries", {}).get(q, 0) + 1
+            if bad:
+                def still(sub, fs=fs):
+                    b, s3 = history_probe(fs, sub)
+                    return bool(b) or (s3 is not None and bool(oracle(fs, s3)))
+                sched = h4.ddmin_list(hist_at[ci], still, budget_s=2.0) if len(fails) < 5 else hist_at[ci]
+                fails.append({"input": {"stream": "query-before-complete", "files": [list(f) for f in fs], "naggr": 1, "schedule": sched},
+                              "observed": bad[:4], "required": "C07 after a history of add_file and read-only queries (a query changes nothing)"})
         dist[stream] = dist.get(stream, 0) + 1
         if len(fs) >= 2 and any("/" in f[0] for f in fs):
             nontrivial.add(request(fs, k))
@@ -692,6 +904,9 @@ def correspond(ctx):
         i = "ok %s %s" % (enc_str(get_parent_folder(s)), enc_str(get_basename(s)))
         if m != i:
             dis.append({"stream": "pathfn", "input": {"stream": "pathfn", "path": s}, "model": m, "impl": i})
+    fails.sort(key=lambda f: len(str(f["input"])))
+    for f in fails[:3]:
+        shrink_failure(f)
     n_ladder = run_ladders(ctx, dis, fails, dist)
     if not h4.configuration_is_default():
         dis.append({"stream": "configured", "input": {"stream": "configured"}, "model": "default configuration restored", "impl": "configuration left modified"})
@@ -707,7 +922,15 @@ def correspond(ctx):
                 "modified in between, and the entry objects shared with a third codebase; size ladders (object + compact JSON + linear-time oracle, model up "
                 "to 316 folders for every combination and for 3 combinations at 1000 quick / all up to 3162 thorough): 10^2..3162 (thorough ..10^5) folders flat / nested by digits x folder-by-folder / by-file-name / "
                 "reversed / shuffled insertion, depth 10/50/150 (thorough 300, 600), 10^2..10^4 (10^5) files in one folder, 10^2..10^5 (10^6) measurements in one file; "
-                "non-trivial = distinct inputs with >= 2 files and at least one folder",
+                "ladders also over 10^2, 10^3 (thorough ..10^5) languages with interleaved files and 10^2, 10^3 (..10^4) sub-folders of one folder; every ladder "
+                "additionally gets the rungs n-1, n, n+1, 2n of every integer literal that is new in the source under check (%s); "
+                "awkward-names: components with a backslash before every JSON escape letter, quotes, tab, glob / shell characters, NFC/NFD twins and the "
+                "string literals new in the source under check, compared on object and documents; every in-domain case is also judged on the two report "
+                "DOCUMENTS (an unparsable document is a failing input, not a crash of the check); query-before-complete: read-only questions (every public "
+                "argument-free all_*/total_*/get_*/quality_*/ninetieth_* method of Codebase / Report / ScanTotals, len(tree), to_json, summary / overview / "
+                "findings renderings) asked at random points WHILE the files are added (also on the empty code base and just before the last file), "
+                "list answers emptied by the caller, then aggregate and the usual comparison with the model and the recomputed numbers; "
+                "non-trivial = distinct inputs with >= 2 files and at least one folder" % (r5.novel_only(2, 10 ** 6)[:8] or "none on this tree"),
         "samples": samples, "exhaustive": False, "distribution": dist,
         "disagreements": dis[:50], "oracle_failures": fails[:50],
         "generated_hashes": {"Gen/Logic.lean": _sha(os.path.join(common.LEAN, "CodeLimit", "Gen", "Logic.lean"))},
@@ -727,6 +950,7 @@ def search(ctx, hints):
     rnd = ctx.rng("search")
     cands = [h["files"] for h in hints if h and "files" in h and h.get("naggr", 1) == 1]
     cands = [[tuple(f) for f in fs] for fs in cands if in_domain([tuple(f) for f in fs])]
+    extend_names()
     cands += [gen_files(rnd) for _ in range(3000)]
     cands += [gen_unusual(rnd) for _ in range(1000)]
     for fs in cands:
@@ -735,10 +959,21 @@ def search(ctx, hints):
         if snap is None:
             fails.append({"input": inp, "observed": impl, "required": "no exception"})
         else:
-            bad = oracle(fs, snap)
+            bad = oracle(fs, snap) + oracle_documents(fs)
             if bad:
                 fails.append({"input": inp, "observed": bad[:4], "required": "C07 (recomputed from the input)"})
+    for _ in range(300):
+        fs = gen_files(rnd)
+        sched = gen_schedule(rnd, len(fs))
+        bad, s2 = history_probe(fs, sched)
+        if s2 is not None:
+            bad += oracle(fs, s2)
+        if bad:
+            fails.append({"input": {"stream": "query-before-complete", "files": [list(f) for f in fs], "naggr": 1, "schedule": sched},
+                          "observed": bad[:4], "required": "C07 after a history of add_file and read-only queries"})
     fails.sort(key=lambda f: len(str(f["input"])))
+    for f in fails[:3]:
+        shrink_failure(f)
     return fails[:20]
 
 
@@ -753,6 +988,12 @@ def replay(payload):
     if not in_domain(fs) or inp.get("naggr", 1) != 1:
         print("input is outside the property's domain (duplicate or './' path, or not exactly one aggregate)")
         return True
+    if inp.get("stream") == "query-before-complete":
+        bad, s2 = history_probe(fs, [list(x) for x in inp["schedule"]])
+        if s2 is not None:
+            bad += oracle(fs, s2)
+        print("files=%r with the queries %r in between -> %s" % (fs, inp["schedule"], "; ".join(bad) if bad else "all numbers agree"))
+        return not bad
     if inp.get("stream") == "second-build":
         bad, s2 = second_build_probe(fs)
         if s2 is not None:
@@ -768,6 +1009,6 @@ def replay(payload):
     if snap is None:
         print("files=%r -> %s" % (fs, impl))
         return False
-    bad = oracle(fs, snap)
+    bad = oracle(fs, snap) + oracle_documents(fs)
     print("files=%r -> %s" % (fs, "; ".join(bad) if bad else "all numbers agree"))
     return not bad
